@@ -648,6 +648,12 @@ func runC09(ctx *common.Ctx) error {
 		return err
 	}
 	x.lockTableStress(thorough)
+	if err := x.batchDeleteForced(); err != nil {
+		return err
+	}
+	if err := x.batchDeletes(thorough); err != nil {
+		return err
+	}
 
 	res.ModelCases = len(x.cases)
 	b, _ := json.Marshal(map[string]int{"corruption_cases": ncorr})
